@@ -35,9 +35,10 @@ returns the block; that `rdop2mats` keeps the last block of a repeated name.  Th
 op2.py by exact correspondence on generated files, on the sample files shipped in pyyeti/tests (written
 by Nastran) and on truncated / mis-announced files (harness/props/c11.py, driver command `rd2`).
 
-Not proved (checked by exact correspondence only, see PARTIAL in harness/props/c11.py): `skip_positions` /
-`dir_matches_load` of OUTPUT4 for 64-bit keys / single precision / ASCII, `named_subset = filter`, the
-OUTPUT4 `cutoff_irrelevant`.
+Continued in Props/C11b.lean (the binary OUTPUT4 READER for every variant: file round trip, skip positions,
+dir = load, named subset = filter, cut-off), Props/C11c.lean (ASCII OUTPUT4: the same three on every text the
+reader accepts), Props/C11d.lean (`rdop2record(form, N)`, `rdop2tabheaders` with short pieces) and Props/C11e.lean
+(`rdop2mats(names, which)`).  What is still not proved: PARTIAL in harness/props/c11.py.
 -/
 namespace PyYetiVerif.C11
 open PyYetiVerif.Op4 PyYetiVerif.Op4V
